@@ -35,8 +35,8 @@ def writers_report(ctx):
     if rc != 0:
         ctx.fail("proof", "writers table: the query over Gen/Writers.v failed", detail=out[-2000:])
         return 0
-    blocks = [" ".join(b.split()) for b in re.split(r"^\s*= ", out, flags=re.M)[1:]]
-    bad = re.findall(r'\("([^"]*)", (\d+)%?N?, "([^"]*)", "([^"]*)", (K\w+)\)', blocks[0]) if blocks else []
+    blocks = [" ".join(b.replace("%string", "").replace("%N", "").split()) for b in re.split(r"^\s*= ", out, flags=re.M)[1:]]
+    bad = re.findall(r'\("([^"]*)", (\d+), "([^"]*)", "([^"]*)", (K\w+)\)', blocks[0]) if blocks else []
     over = re.findall(r'\("([^"]*)", "([^"]*)", "([^"]*)", (\d+)', blocks[1]) if len(blocks) > 1 else []
     missing = re.findall(r'\("([^"]*)", "([^"]*)", "([^"]*)"\)', blocks[2]) if len(blocks) > 2 else []
     k = 0
